@@ -26,7 +26,7 @@ func init() {
 		// ------------------------------------------------------------ classifyCases
 		cases, casesOK := []string{}, false
 		if fd := FindFunc(f, "Coordinator", "handleError"); fd != nil {
-			errParam := paramOfType(fd, "error")
+			errParam := c07ParamOfType(fd, "error")
 			vars := map[string]string{} // local `var x *T` declarations → T without package qualifier
 			Walk(fd.Body, func(n ast.Node) bool {
 				if vs, ok := n.(*ast.ValueSpec); ok && vs.Type != nil {
@@ -217,7 +217,7 @@ func c11RetryExcludes(f *ast.File) (bool, bool, string) {
 	if fd == nil {
 		return false, false, "retry not found"
 	}
-	excl := paramOfType(fd, "[]peer.ID", "peer.IDSlice")
+	excl := c07ParamOfType(fd, "[]peer.ID", "peer.IDSlice")
 	if excl == "" {
 		return false, false, "retry has no []peer.ID parameter"
 	}
@@ -309,10 +309,10 @@ func c11RetryableGuard(f *ast.File) (bool, bool, string) {
 	pos := func(e ast.Expr) (bool, bool) {
 		if id, isID := e.(*ast.Ident); isID {
 			if r, ok := locals[id.Name]; ok {
-				return retryableCondPos(r)
+				return c11RetryableCondPos(r)
 			}
 		}
-		return retryableCondPos(e)
+		return c11RetryableCondPos(e)
 	}
 	retryableCond := func(e ast.Expr) (neg bool, ok bool) {
 		if p, isP := e.(*ast.ParenExpr); isP {
@@ -380,7 +380,7 @@ func c11RetryableGuard(f *ast.File) (bool, bool, string) {
 	return true, guarded, ""
 }
 
-func retryableCondPos(e ast.Expr) (bool, bool) {
+func c11RetryableCondPos(e ast.Expr) (bool, bool) {
 	c, ok := e.(*ast.CallExpr)
 	if ok && strings.HasSuffix(Src(c.Fun), ".Retryable") && len(c.Args) == 0 {
 		return false, true
